@@ -55,7 +55,8 @@ def load_known(pid: str):
 def _write_replay(pid: str, rec: dict) -> str:
     d = os.path.join(VERIF_ROOT, '.work', pid)
     os.makedirs(d, exist_ok=True)
-    name = f"replay-{rec['clause'].replace('/', '_').replace(' ', '_')[:40]}-{h64(rec['case']):016x}.json"
+    slug = ''.join(ch if ch.isalnum() else '_' for ch in rec['clause'])[:40]
+    name = f"replay-{slug}-{h64(rec['case']):016x}.json"
     path = os.path.join(d, name)
     with open(path, 'w') as f:
         json.dump({'property': pid, **rec}, f, indent=1, sort_keys=True)
